@@ -1,7 +1,7 @@
 """C16 - threaded logging: every queued message once, in order, before fini."""
 from engine.qb import (AnalysisBroken, estr, unwrap, cval, walk, last_field, fields_of, callee_of, mentions_var,
                        atoms_of, root_var, lockset)
-from rules.common import field_is, has_call, derives
+from rules.common import some_source, field_is, has_call, derives
 
 UNITS = ['lib/log_thread.c', 'lib/log.c', 'lib/log_file.c', 'lib/log_syslog.c', 'lib/log_blackbox.c', 'lib/log_format.c']
 DECIDES = ('Decides the lock discipline on the queue state, append-then-post, that the worker only exits when drained, that '
@@ -21,8 +21,9 @@ RULES = {
     'R10': 'no call through an absent logger: every call through qb_log_target.logger is made only where that target\'s logger was seen to be non-NULL (QB_LOG_CONF_THREADED is accepted for targets that only have a vlogger, such as the blackbox)',
     'R11': 'what is queued is written before the routing changes: the functions control operations bracket their work with (pause, quiesce) write out every queued record after taking the thread\'s lock, and every change of what the logging thread does with a queued record - a store of a new value to a target\'s threaded switch, a change of the filters or tags of existing call sites (through helpers: judged at the callers), the custom filter function run over them - happens inside such a bracket (or in qb_log_fini after the thread was stopped)',
     'R12': 'a logger that logs cannot dead-lock the writer: qb_log_thread_log_post takes the queue lock only after a test that the calling thread is not the one that is handing records to the targets (pthread_equal with the recorded writer), and every write of a queued record is made with the writer recorded',
+    'R13': 'the number dropped is reported by whoever takes records off the queue: in every function that unlinks queued records (the logging thread, and the helper control operations, pause and stop write the backlog with) no path from an unlink to the release of the queue lock or to the return misses the report - the drop counter read, zeroed and its value handed to a printing call',
 }
-FLOORS = {'R1': 11, 'R2': 5, 'R3': 4, 'R4': 5, 'R5': 5, 'R6': 3, 'R7': 3, 'R8': 2, 'R9': 3, 'R10': 2, 'R11': 5, 'R12': 2}
+FLOORS = {'R13': 3, 'R1': 11, 'R2': 5, 'R3': 4, 'R4': 5, 'R5': 5, 'R6': 3, 'R7': 3, 'R8': 2, 'R9': 3, 'R10': 2, 'R11': 5, 'R12': 2}
 
 LOCK = 'logt_wthread_lock'
 GUARDED = ('logt_print_finished_records', 'logt_memory_used', 'logt_dropped_messages')
@@ -114,6 +115,7 @@ def run(ctx):
     r10(ctx)
     r11(ctx)
     r12(ctx, fns)
+    r13(ctx, fns)
     r5(ctx)
     r6(ctx, fns)
     r7(ctx, fns)
@@ -650,3 +652,57 @@ def r12(ctx, fns):
                           'a queued record is handed to the targets without recording which thread does it: a logger that logs is not recognised')
     if n == 0:
         raise AnalysisBroken('log_thread.c: no write of a queued record found')
+
+
+DROPS = 'logt_dropped_messages'
+
+
+def _is_counter(x):
+    return isinstance(x, dict) and x.get('k') == 'var' and x.get('sc') == 'g' and x.get('n') == DROPS
+
+
+def _zeroes(ev):
+    return ev.kind == 'STORE' and ev.d['op'] == '=' and _is_counter(unwrap(ev.lhs)) and cval(unwrap(ev.rhs)) == 0
+
+
+def r13(ctx, fns):
+    # who reports: a function that zeroes the counter on every path (itself) - a call of it is a report
+    reporters = {}
+    for g in fns:
+        z = [ev for ev in g.events('STORE') if _zeroes(ev)]
+        if z and g.must_pass(('entry',), _zeroes)[0]:
+            reporters[g.name] = z
+
+    def is_report(ev, g):
+        return _zeroes(ev) or (ev.kind == 'CALL' and ev.callee in reporters and ev.callee != g.name)
+    takers = []
+    for g in fns:
+        dl = [ev for ev in g.calls('qb_list_del')]
+        if dl and any(n.get('k') == 'var' and n.get('n') == 'logt_print_finished_records' for ev in g.events() for t in (ev.d.get('e'), ev.d.get('rhs'), ev.d.get('init')) if t for n in walk(t)):
+            takers.append((g, dl))
+    if len(takers) < 2:
+        raise AnalysisBroken('R13: %d functions unlink queued records (the logging thread and the backlog writer expected)' % len(takers))
+    for g, dl in takers:
+        for d in dl:
+            hits, exits, _n = g.search(('after', d), goal=lambda ev: ev.kind == 'CALL' and ev.callee == 'qb_thread_unlock' and LOCK in estr(ev.args[0]),
+                                       stop=lambda ev, g=g: is_report(ev, g))
+            bad = bool(hits) or bool(exits)
+            ctx.check('R13', '%s:unlink-then-report' % g.name, not bad, hits[0][0] if hits else d,
+                      'records taken off the queue in %s: the drop count is reported before the queue lock is released / the function returns' % g.name,
+                      '%s takes records off the queue and can %s without reporting how many messages the full queue turned away: after a control operation, a pause or the stop has written the backlog the count is never said (or is said in the next logging session)'
+                      % (g.name, 'release the queue lock' if hits else 'return'))
+    # the report says the number: the value read from the counter reaches a call argument
+    said = []
+    for name, z in reporters.items():
+        g = ctx.prog.fn(name)
+        for ev in g.events('CALL'):
+            if ev.callee in ('qb_thread_lock', 'qb_thread_unlock'):
+                continue
+            for a in ev.args:
+                if any(_is_counter(n) for n in walk(a)) or some_source(g, a, ev, lambda x: any(_is_counter(n) for n in walk(x))):
+                    said.append(ev)
+    if not reporters:
+        raise AnalysisBroken('R13: no function zeroes %s' % DROPS)
+    ctx.check('R13', 'report-says-the-number', bool(said), said[0] if said else list(reporters.values())[0][0],
+              'the function that zeroes the drop counter hands its value to a call (the line that says how many were lost)',
+              'the drop counter is zeroed but its value reaches no call: the number dropped is forgotten, not reported')
